@@ -22,7 +22,7 @@ RULE = ("one case per (generated table, option combination); non-trivial = table
 ANCHORS = ["decaylanguage.dec.dec:DecFileParser.print_decay_modes", "decaylanguage.dec.dec:DecFileParser._decay_mode_details"]
 WORKERS = {"quick": 4, "thorough": 16}
 REQUIRED = {"ascending": 50, "ascending+scale": 20, "descending+scale": 20, "normalize": 50, "ties": 30, "lines>=5": 50, "lines>=8": 20, "refused:normalize+scale": 10,
-            "refused:scale-out-of-range": 20, "refused:scale-nan": 5, "reparsed-off-and-on-between-prints": 20, "first-parsed-without-conjugates-then-with": 10, "pdg-name-mother": 10, "print_model=False": 50, "photos-keyword-hidden": 30, "photos-keyword-shown": 30,
+            "refused:scale-out-of-range": 20, "refused:scale-nan": 5, "all-values-below-1e-9": 10, "reparsed-off-and-on-between-prints": 20, "first-parsed-without-conjugates-then-with": 10, "pdg-name-mother": 10, "print_model=False": 50, "photos-keyword-hidden": 30, "photos-keyword-shown": 30,
             "option-combinations-all": 1, "conjugated-table-printed": 20, "defined-parameter-in-row": 20, "same-table-other-define-value": 10, "span>=1e6": 20, "stored-values-unchanged": 200}
 EXHAUSTIVE_NOTE = "all 2x2x2x(normalize|8 scales) option combinations are used on every 8th table (quick) / every table (thorough)"
 ASSUMPTIONS = ["values are positive (1e-12..1); 7-significant-digit rounding allows a relative error of 6e-7 per value",
@@ -36,6 +36,9 @@ def gen_table(ctx):
     g = decgen.Gen(r)
     n = r.choice([1, 2, 3, 4, 5, 5, 8, 12])
     base = [10 ** r.uniform(-12, 0) for _ in range(n)]
+    if r.random() < 0.15:
+        base = [10 ** r.uniform(-12, -9.5) for _ in range(n)]     # a table of rare modes only: every value (and their sum) far below 1e-9
+        ctx.hit("all-values-below-1e-9")
     lines = []
     lits = []
     for i in range(n):
